@@ -261,6 +261,8 @@ class Net:
             raise ConnectionRefusedError(111, 'Connection refused')
         a, b = self.pair()
         a.timeout = timeout
+        # optional: the accepting side has a small receive buffer (a sender using send() gets short counts)
+        b.rcvbuf = getattr(self, 'accept_rcvbuf', None)
         lst.count += 1
         self.connect_log.append((sim.vnow(), port, 'ok', _tname()))
         lst.accept_fn(b, (host, 40000 + self.nconn))
